@@ -7,7 +7,7 @@
    share). *)
 From Coq Require Import String ZArith List Bool.
 From HD Require Import Base.Val C16_Model C16_Proofs C16_Proofs_Acc C16_Proofs_Mixed C16_Proofs_Codes C16_Proofs_Tree
-  C16_Proofs_E2E C16_Proofs_General C16_Proofs_Construct.
+  C16_Proofs_E2E C16_Proofs_General C16_Proofs_Construct C16_Proofs_Enc.
 Import ListNotations.
 Open Scope Z_scope.
 
@@ -441,3 +441,80 @@ Example C16_former_counterexamples_refused :
   (exists r, cv_spec None None (Some (SpSegment 3 11 (SrcArg (Some [(0, 3)]) None))) = Ok (Ok r)).
 Proof. exact former_counterexamples_refused. Qed.
 Print Assumptions C16_former_counterexamples_refused.
+
+(* ---- measurement VALUES, also after the report went through DICOM encoding ------------------------------------
+   Vocabulary: a NUM item carries Numeric Value (v1; VR DS: once encoded, the number its decimal string of at most
+   16 characters says) and optionally Floating Point Value (v2 = fp_code x; 0 = absent).  `map_num fn` rewrites
+   these two numbers on every NUM item of a tree; `encode trunc` = what writing + reading a data set does
+   (Numeric Value x comes back as trunc x, for ANY function trunc); `with_fp fl` = what sr.Measurement writes for
+   values given as Python floats.  `built fl trunc g` = encode trunc (with_fp fl (build g)). *)
+
+(* NumContentItem.value: the exact attribute has precedence; without it the value is Numeric Value *)
+Theorem C16_value_prefers_floating_point :
+  (forall n v r a x t k, num_value (Item n v r a (fp_code x) t k) = x) /\
+  (forall i, v2 i = 0 -> num_value i = v1 i).
+Proof. exact (conj num_value_prefers_fp num_value_nofp). Qed.
+Print Assumptions C16_value_prefers_floating_point.
+
+(* ANY tree, ANY rewriting of the numbers of its NUM items: every query returns the same groups (rewritten) in the
+   same order, or the same error - group selection, filters and refusals cannot depend on measurement values *)
+Theorem C16_queries_blind_to_numbers : forall fn k root f,
+  query k (map_num fn root) f = on_items fn (query k root f).
+Proof. exact query_M. Qed.
+Print Assumptions C16_queries_blind_to_numbers.
+
+(* ... and every accessor other than get_measurements shows the same (groups in which no child of a child is a
+   NUM item: the two roi accessors read the first child of an image region whatever its value type) *)
+Theorem C16_accessors_blind_to_numbers : forall fn k g mname ename, grandkids_not_num g ->
+  (forall name, acc_measurements (map_num fn g) name = acc_measurements g name) ->
+  acc_val k (map_num fn g) mname ename = acc_val k g mname ename.
+Proof. exact acc_val_M. Qed.
+Print Assumptions C16_accessors_blind_to_numbers.
+
+(* ANY group of ANY tree, ANY behaviour of the DS string: get_measurements (all / by name) reports after encoding
+   what it reported before, provided every measurement whose Numeric Value the string does not represent exactly
+   carries Floating Point Value *)
+Theorem C16_measurements_survive_encoding : forall trunc g name,
+  (forall i, In i (kids g) -> vt_eqb (vt i) NUM = true -> v2 i <> 0 \/ trunc (v1 i) = v1 i) ->
+  acc_measurements (encode trunc g) name = acc_measurements g name.
+Proof. exact measurements_survive_encoding. Qed.
+Print Assumptions C16_measurements_survive_encoding.
+
+(* the precedence is necessary: an accessor that prefers Numeric Value reports another value after encoding although
+   the measurement carries Floating Point Value (the regression class `value read from the lossy attribute`) *)
+Theorem C16_numeric_value_first_refuted :
+  let alt g := map (fun i => (nm i, v1 i)) (find_items (kids g) None (Some NUM) None) in
+  (forall i, In i (kids third_g) -> vt_eqb (vt i) NUM = true -> v2 i <> 0) /\
+  alt (encode (fun _ => 33) third_g) <> alt third_g /\
+  acc_measurements (encode (fun _ => 33) third_g) None = acc_measurements third_g None /\
+  acc_measurements third_g None = [(140, 33333)].
+Proof. exact numeric_value_first_refuted. Qed.
+Print Assumptions C16_numeric_value_first_refuted.
+
+(* the property sentence for a report that went through DICOM encoding: for every query kind, every report of good
+   records, every accepted filter combination, every set `fl` of values given as floats and every DS behaviour
+   `trunc` that is exact on the other values, the query on the ENCODED report returns exactly the groups of its
+   kind satisfying every filter, in document order, and every returned group shows through every accessor what its
+   record says - the measurement values included *)
+Theorem C16_end_to_end_encoded : forall fl trunc k pre gs f mname ename,
+  no_im pre = true -> Forall good gs -> qcheck k f = Ok tt -> Forall (values_ok fl trunc) gs ->
+  let answer := filter (fun g => kind_eqb (g_kind g) k && satk k f g) gs in
+  query k (encode trunc (with_fp fl (report pre gs))) f = Ok (map (built fl trunc) answer) /\
+  map (fun it => acc_val k it mname ename) (map (built fl trunc) answer)
+  = map (fun g => spec_acc k g mname ename) answer.
+Proof. exact end_to_end_encoded. Qed.
+Print Assumptions C16_end_to_end_encoded.
+
+(* the observation of the correspondence run for encoded reports = the one for the report that never was *)
+Theorem C16_run_accessors_enc_exact : forall floats tbl pre gs mname ename, no_im pre = true -> Forall good gs ->
+  Forall (values_ok (fun x => mem x floats) (tbl_fun tbl)) gs ->
+  run_accessors_enc floats tbl pre gs mname ename = run_accessors pre gs mname ename.
+Proof. exact run_accessors_enc_exact. Qed.
+Print Assumptions C16_run_accessors_enc_exact.
+
+Example C16_encoded_nonvacuous :
+  good enc_group /\ values_ok (fun x => mem x [33333]) (tbl_fun [(33333, 33)]) enc_group /\
+  run_accessors_enc [33333] [(33333, 33)] [] [enc_group] None None = run_accessors [] [enc_group] None None /\
+  run_accessors_enc [] [(33333, 33)] [] [enc_group] None None <> run_accessors [] [enc_group] None None.
+Proof. exact encoded_nonvacuous. Qed.
+Print Assumptions C16_encoded_nonvacuous.
